@@ -1,7 +1,7 @@
 (** The result of the search does not depend on HashMap iteration order (nor on anything else
     that only permutes the candidate edges of a vertex) as long as no two distinct solutions
     tie under the sort key. *)
-From Sci Require Import Combine.Model Combine.Proofs Combine.ProofsC19 Combine.ProofsBound Combine.ProofsC04 Common.ListAux.
+From Sci Require Import Combine.Model Combine.Obs Combine.Proofs Combine.ProofsC19 Combine.ProofsBound Combine.ProofsC04 Common.ListAux.
 From Coq Require Import Lia ZifyBool ZifyNat ZifyN Permutation Sorted ZArith.
 Local Open Scope Z_scope.
 
@@ -198,11 +198,6 @@ Proof.
 Qed.
 
 (** the decidable tie test used by the correspondence driver implies [NoTies] *)
-Fixpoint adjacent_ties (l : list solution) : bool :=
-  match l with
-  | a :: ((b :: _) as r) => (match cmp_sol a b with Eq => true | _ => false end) || adjacent_ties r
-  | _ => false
-  end.
 
 Lemma sorted_no_adjacent_ties l :
   StronglySorted kle l -> NoDup l -> adjacent_ties l = false -> NoTies l.
